@@ -517,6 +517,40 @@ func c19concBody() {
 	sched.SetOutcome(fmt.Sprintf("free=%v report=%s left=%v", withFree, heats(hk), latched))
 }
 
+// C19 (S): two request writers share one counter (two clients of one backend get the counter registered for its
+// name): they access the same, not yet tracked key at the same time, then more keys are admitted at full capacity.
+// oracle    exact counts (the key accessed twice is reported with 2), at most capacity keys tracked, the key
+//
+//	with the most accesses survives the evictions
+func c19sharedCounterBody() {
+	col := NewCollector(2)
+	c := col.AllocCounter("n0")
+	if c2 := col.AllocCounter("n0"); c2 != c {
+		sched.SetOutcome("counters are not shared")
+		return
+	}
+	var wg vsync.WaitGroup
+	wg.Add(2)
+	sched.GoNamed("writer0", func() { defer wg.Done(); c.Incr("k1") })
+	sched.GoNamed("writer1", func() { defer wg.Done(); c.Incr("k1") })
+	wg.Wait()
+	more := sched.Choose(sched.ClsInput, 4, "further admissions")
+	for i := 0; i < more; i++ {
+		c.Incr(fmt.Sprintf("k%d", i+2))
+	}
+	if len(c.items) > 2 {
+		sched.Fail("counter-tracks-more-than-capacity / writers sharing a counter", fmt.Sprintf("capacity 2, %d keys tracked after k1 x2 (concurrently) and %d further keys", len(c.items), more))
+	}
+	got := c.Latch()
+	if got["k1"] != 2 {
+		sched.Fail("accesses-lost-or-hot-key-evicted / writers sharing a counter", fmt.Sprintf("k1 was accessed twice (by two writers at once), then %d colder keys once each: the counter reports %v", more, got))
+	}
+	if len(got) > 2 {
+		sched.Fail("counter-tracks-more-than-capacity / writers sharing a counter", fmt.Sprintf("capacity 2: %v", got))
+	}
+	sched.SetOutcome(fmt.Sprintf("more=%d %v", more, len(got)))
+}
+
 // C19 (S): one counter, a request writer and the collector's Latch at the same time: every access is either in
 // a latched result or still in the counter - none is lost, none is counted twice.
 func c19latchBody() {
@@ -575,6 +609,13 @@ func init() {
 			b.Env = 2
 		}
 		return sched.Config{Bounds: b, Iterative: true}, c19collectorBody(d)
+	}})
+	sched.Register(&sched.Scenario{Name: "C19/shared-counter", Setup: func(tier string) (sched.Config, func()) {
+		b := sched.Bounds{P: 2, F: -1}
+		if tier == "thorough" {
+			b.P = 3
+		}
+		return sched.Config{Bounds: b, Iterative: true}, c19sharedCounterBody
 	}})
 	sched.Register(&sched.Scenario{Name: "C19/concurrent", Setup: func(tier string) (sched.Config, func()) {
 		b := sched.Bounds{P: 2, F: -1}
